@@ -915,8 +915,17 @@ def _run_rest(ctx, pool, rb, rm):
         std_cases = [j for j in rstd.json_lines if "edits" in j]
         # every other stand-alone case calls its new node Gr\u00f6\u00dfe instead of Kappa: a legal tag name whose case-folded
         # form ("gr\u00f6sse") differs from its lower-case form - it has children and value children like any other node
+        def _on_new(j):          # some edit works on a node that an earlier edit added
+            added = set()
+            for e in j["edits"]:
+                tgt = e[2] if e[0] in ("AddNode", "AddRooted") and len(e) > 2 else (e[1] if len(e) > 1 else "")
+                if isinstance(tgt, str) and tgt in added:
+                    return True
+                if e[0] in ("AddNode", "AddRooted"):
+                    added.add(e[1])
+            return False
         std_cases = [json.loads(json.dumps(j).replace("Kappa", "Gr\\u00f6\\u00dfe").replace("Delta", "Stra\\u00dfe"))
-                     if (n + ctx.seed) % 2 == 0 else j for n, j in enumerate(std_cases)]
+                     if (_on_new(j) or (n + ctx.seed) % 2 == 0) else j for n, j in enumerate(std_cases)]
     finally:
         for m in made:
             os.remove(os.path.join(tlc.SPECS, m))
